@@ -477,11 +477,28 @@ def gen_stmt(draw, g, d):
         g.declare(fs, "fnlist")
         x = draw(st.sampled_from(NAMES))
         src = gen_list(draw, g, max(0, d - 2))
+        shape = draw(st.sampled_from(["iter", "iter", "iteri", "iteri", "decl"]))
         g.push()
         g.declare(x, "int")
+        clauses = [["iter", x, src]]
+        if shape == "iteri":
+            # index/element iteration: each iteration's pair of bindings is captured separately as well
+            ix = draw(st.sampled_from([n for n in NAMES if n != x]))
+            g.declare(ix, "int")
+            clauses = [["iteri", ix, x, src]]
+        elif shape == "decl":
+            w = draw(st.sampled_from([n for n in NAMES if n != x]))
+            clauses.append(["decl", w, ["bin", "+", ["bin", "*", ["var", x], ["int", 10]], ["int", draw(st.integers(0, 9))]]])
+            g.push()
+            g.declare(w, "int")
         body = gen_int(draw, g, max(0, d - 2))
+        if shape == "iteri":
+            body = ["bin", "+", ["bin", "*", ["var", ix], ["int", 100]], ["bin", "+", ["var", x], body]]
+        elif shape == "decl":
+            body = ["bin", "+", ["var", w], body]
+            g.pop()
         g.pop()
-        loop = ["for", [["iter", x, src]], ["yield", ["lambda", [], body], None]]
+        loop = ["for", clauses, ["yield", ["lambda", [], body], None]]
         y = draw(st.sampled_from([n for n in NAMES if n != fs]))
         return ["seq", [["decl", fs, loop], ["print", [["for", [["iter", y, ["var", fs]]], ["yield", ["call", ["var", y], []], None]]]]], True]
     if k == "try":
